@@ -82,10 +82,12 @@ CANARIES = [
      "                _selector_fit_cache[cachekey] = capmap", "                pass", "C03 C07 C13", "silent"),
     ("neutral-lock-plain-name", "ptera/overlay.py",
      "_tooling_lock = threading.RLock()", "_tooling_lock = _the_lock = threading.RLock()", "C08", "silent"),
-    ("neutral-interactor-exit-first", "ptera/overlay.py",
+    # (first classed as behaviour-preserving; seeded change C05e showed it is not: a subscriber of a
+    # total probe that fails while the call is wound up then leaves the inner collection installed)
+    ("interactor-exit-first", "ptera/overlay.py",
      "        if not self.suspended:\n            HandlerCollection.current.set(self.outer)\n        self.interactor.exit()",
      "        self.interactor.exit()\n        if not self.suspended:\n            HandlerCollection.current.set(self.outer)",
-     "C07", "silent"),
+     "C05", "caught"),
 ]
 
 
